@@ -206,6 +206,37 @@ func c06Handle(req *c06Req) (resp c06Resp) {
 		}
 		resp.Outcome = "ok"
 		resp.Record = fmt.Sprintf("cols=%d rows=%d", blk.Columns, blk.Rows)
+	case "deeptype":
+		// a type string of req.Rows nested wrappers (req.Type cycles through "Array|Nullable|…") around req.Msg, given to
+		// ColAuto.Infer directly, or (Auto) put into the header of a zero-row block decoded through Results.Auto()
+		ts := deepType(req.Type, req.Rows, req.Msg)
+		var derr error
+		if req.Auto {
+			var e wireEnc
+			e.uvar(1) // BlockInfo: field 1 (overflows) = false, field 2 (bucket) = -1, end
+			e.buf = append(e.buf, 0)
+			e.uvar(2)
+			e.buf = append(e.buf, 0xff, 0xff, 0xff, 0xff)
+			e.uvar(0)
+			e.uvar(1) // columns
+			e.uvar(0) // rows
+			e.uvar(1)
+			e.buf = append(e.buf, 'x')
+			e.uvar(uint64(len(ts)))
+			e.buf = append(e.buf, ts...)
+			e.buf = append(e.buf, 0) // custom serialization flag
+			var blk proto.Block
+			var res proto.Results
+			derr = blk.DecodeBlock(proto.NewReader(bytes.NewReader(e.buf)), 54460, res.Auto())
+		} else {
+			derr = new(proto.ColAuto).Infer(proto.ColumnType(ts))
+		}
+		if derr != nil {
+			resp.Outcome = "err:" + errClass(derr)
+			resp.Detail = trunc(derr.Error(), 200)
+			return
+		}
+		resp.Outcome = "ok"
 	case "msg":
 		kinds := map[string]int{"ClientHello": 0, "ServerHello": 1, "ClientInfo": 2, "Query": 3, "ClientData": 4, "Progress": 5, "Profile": 6, "Exception": 7, "TableColumns": 8, "BlockHeader": 9}
 		m := genMsg(NewRng(1), kinds[req.Msg], true)
@@ -222,6 +253,59 @@ func c06Handle(req *c06Req) (resp c06Resp) {
 		resp.Record = rec
 	}
 	return
+}
+
+func deepType(wrappers string, depth int, leaf string) string {
+	ws := strings.Split(wrappers, "|")
+	var sb strings.Builder
+	for i := 0; i < depth; i++ {
+		sb.WriteString(ws[i%len(ws)])
+		sb.WriteByte('(')
+	}
+	sb.WriteString(leaf)
+	sb.WriteString(strings.Repeat(")", depth))
+	return sb.String()
+}
+
+// deepTypeCases runs type strings nested to depths far beyond anything a server sends through the sacrificial child: the
+// call must come back (error or result), never take the process down (a goroutine stack is finite).
+func deepTypeCases(c *Ctx, child *c06Child, prop, key string, thorough bool) *c06Child {
+	R := c.R
+	depths := []int{1, 50, 99, 100, 101, 102, 1000, 100_000, 3_000_000}
+	if thorough {
+		depths = append(depths, 20_000_000)
+	}
+	id := 1 << 20
+	for _, w := range []string{"Array", "Nullable", "LowCardinality", "Array|Nullable", "Nullable|LowCardinality|Array"} {
+		for _, d := range depths {
+			for _, auto := range []bool{false, true} {
+				if d > 100_000 && w != "Array" && w != "Array|Nullable" {
+					continue
+				}
+				id++
+				req := &c06Req{ID: id, Kind: "deeptype", Type: w, Rows: d, Msg: "Int8", Auto: auto}
+				cs := map[string]any{"kind": "deeptype", "wrappers": w, "depth": d, "leaf": "Int8", "through_block": auto}
+				R.Case(fmt.Sprintf("deeptype|%s|%d|%v", w, d, auto), true)
+				R.Count("shape:deep-type")
+				resp, died := child.ask(req)
+				if died {
+					k := key
+					if resp.Outcome == "hang" {
+						k = "decode-hang"
+					}
+					R.Violate(Violation{Kind: "oracle", Key: k, What: fmt.Sprintf("a type string of %d nested %s( took the process down (fatal error: stack overflow) or did not terminate", d, w), Case: cs})
+					child.close()
+					child, _ = startC06Child()
+					continue
+				}
+				if strings.HasPrefix(resp.Outcome, "panic:") {
+					R.Violate(Violation{Kind: "oracle", Key: "infer-panic", What: "deeply nested type string: " + resp.Outcome, Case: cs})
+				}
+				R.Count("deep-type:" + strings.SplitN(resp.Outcome, ":", 2)[0])
+			}
+		}
+	}
+	return child
 }
 
 // ---------------------------------------------------------------- parent
@@ -294,6 +378,7 @@ func runC06(c *Ctx) {
 		return
 	}
 	defer func() { child.close() }()
+	child = deepTypeCases(c, child, "C06", "process-abort", c.Thorough)
 	id := 0
 	run := func(req *c06Req, cs map[string]any, model string) {
 		id++
